@@ -338,12 +338,16 @@ class World:
     def eof(self) -> bool:
         return bool(self.tr and self.tr.feed_eof())
 
+    RESET_EXC = {"reset": lambda: ConnectionResetError(104, "reset by peer"), "timedout": lambda: TimeoutError(110, "Connection timed out"),
+                 "oserr": lambda: OSError(113, "No route to host"), "oserr2": lambda: BrokenPipeError(32, "Broken pipe")}
+
+    def reset_as(self, flavor: str) -> bool:
+        return bool(self.tr and self.tr.feed_error(self.RESET_EXC[flavor]()))
+
     def reset(self) -> bool:
         # what recv() fails with varies: a reset, a keep-alive time-out of the kernel (the builtin TimeoutError, which
         # asyncio.TimeoutError aliases), an unreachable host, a broken pipe - the library treats them alike
-        exc = self.rng.choice([ConnectionResetError(104, "reset by peer"), TimeoutError(110, "Connection timed out"),
-                               OSError(113, "No route to host"), BrokenPipeError(32, "Broken pipe"), ConnectionAbortedError(103, "aborted")])
-        return bool(self.tr and self.tr.feed_error(exc))
+        return self.reset_as(self.rng.choice(("reset", "reset", "timedout", "oserr", "oserr2")))
 
     def set_write_failure(self, exc: BaseException | None) -> None:
         self.fail_writes = exc
